@@ -153,7 +153,8 @@ Fixpoint run (fuel : nat) (prev : option N) (rest : list N) (pos : nat) (s : st)
       end
   end.
 
-(* utoken.scan (utoken.py:216-218): 32 NUL sentinels are appended, then _uscan.scan *)
-Definition sentinels : list N := repeat 0 32.
+(* utoken.scan (utoken.py:216-218): sentinel_count (= 32, read from utoken.py by the translator) NUL
+   sentinels are appended, then _uscan.scan *)
+Definition sentinels : list N := repeat 0 sentinel_count.
 
 Definition scan (s : list N) : final := run (length s + 1) None (s ++ sentinels) 0%nat init.
